@@ -18,7 +18,7 @@ HEADER = ('From Coq Require Import NArith ZArith List Bool String. Import ListNo
           'From Y Require Import Prelude Node Tables NodeOps OpsRun Types Recognize Loader Hooks LoadRun.\n'
           'Open Scope N_scope.\nSet Printing Width 1000000. Set Printing Depth 100000000.\n')
 
-PNAMES = ['a', 'b', 'c_d', 'e', 'name', 'kind', 'x_y_z', 'f']
+PNAMES = ['a', 'b', 'c_d', 'e', 'name', 'kind', 'x_y_z', 'f', '_meta']
 SCALARS = ['str', 'int', 'float', 'bool', 'none', 'date', 'path', 'any']
 
 
@@ -54,6 +54,8 @@ def gen_model(rnd, max_classes=5, hooks=True):
         if r < 0.12:
             members = rnd.sample(['red', 'green', 'true', 'yes', 'blue_1', 'N'], rnd.randrange(1, 4))
             s = {'name': name, 'kind': 'enum', 'members': members, 'bases': []}
+            if rnd.random() < 0.5:
+                s['enumvals'] = rnd.choice(['int', 'strempty', 'none-first'])
             if hooks and rnd.random() < 0.3:
                 s['savorize'] = [('if', ('isscalar', 'str'), [], [])]
         elif r < 0.24:
@@ -165,7 +167,7 @@ def gen_node(rnd, specs, t, depth=3):
             'boolfix': lambda: S(rnd.choice(['true', 'false']), 'bool'),
             'none': lambda: S(rnd.choice(['', '~', 'null']), 'null'),
             'date': lambda: S(rnd.choice(['2001-12-14', '2001-12-14 21:59:43.10 -5', '2002-1-1']), 'timestamp'),
-            'path': lambda: S(rnd.choice(['/tmp/x', 'rel/p.txt', '.', '~/notes.txt', '~', '../up'])),
+            'path': lambda: S(rnd.choice(['/tmp/x', 'rel/p.txt', '.', '~/notes.txt', '~', '../up', '~nosuchuser/data', '~~', '$HOME/x'])),
         }[t]()
     k = t[0]
     if k == 'list':
@@ -532,6 +534,10 @@ def permissive_cases(rnd):
                     yield specs, ('class', 'K2'), M([(S('jobs'), Q([encode.copy_tree(doc)]))]), 'permissive-nested-list'
                 else:
                     yield specs, ('class', 'K2'), M([(S('tbl'), M([(S('k'), encode.copy_tree(doc))]))]), 'permissive-nested-dict'
+        for t in ptypes:
+            for kind, w in scal:
+                doc = M([(S(('p-' if u == t else 'p_') + u), encode.copy_tree(w if u == t else good[u])) for u in ptypes])
+                yield specs, ('class', 'K0'), doc, 'permissive-dashed-%s-for-%s' % (kind, t)
         yield specs, ('class', 'K1'), M([(S('count'), S('3', 'int')), (S('unlimited'), S('yes'))]), 'savorize-writes-wrong-kind'
         yield specs, ('class', 'K2'), M([(S('one'), M([(S('count'), S('3', 'int')), (S('unlimited'), S('yes'))]))]), 'savorize-writes-wrong-kind-nested'
         yield specs, ('class', 'K1'), M([(S('count'), S('3', 'int'))]), 'valid'
@@ -540,7 +546,7 @@ def permissive_cases(rnd):
 def alias_cases(rnd):
     """One anchored scalar (or small collection) aliased at positions of DIFFERENT declared types: str / Any / untyped next to an
     Enum, a string-like class, a Path -- in both parameter orders, at top level and inside a list."""
-    col = {'name': 'Col', 'kind': 'enum', 'members': ['red', 'green'], 'bases': [], 'registered': True}
+    col = {'name': 'Col', 'kind': 'enum', 'members': ['red', 'green'], 'bases': [], 'registered': True, 'enumvals': 'int'}
     idt = {'name': 'Ident', 'kind': 'str', 'bases': [], 'strbase': 'yatiml.String', 'registered': True}
     for first_plain in (True, False):
         for plain_t in ('str', 'any', None):
@@ -554,8 +560,21 @@ def alias_cases(rnd):
                 specs = [col, idt, host, lst]
                 shared = S('red')
                 doc = M([(S(p['name']), shared) for p in ps])
+                if typed_t == 'path':
+                    yield specs, ('class', 'A'), M([(S(p['name']), S('~nosuchuser/data')) for p in ps]), 'path-unknown-user'
                 yield specs, ('class', 'A'), doc, 'alias-scalar'
                 yield specs, ('class', 'L'), M([(S('items'), Q([doc, M([(S(p['name']), S('green')) for p in ps])]))]), 'alias-scalar-nested'
+    # an anchored scalar used as a dict KEY at one place and as a value / a key of another key type elsewhere
+    kh = {'name': 'KH', 'kind': 'obj', 'bases': [], 'extra': False, 'registered': True,
+          'params': [{'name': 'label', 'type': 'str', 'required': True},
+                     {'name': 'by_id', 'type': ('dict', 3, ('class', 'Ident'), 'int'), 'required': True},
+                     {'name': 'by_name', 'type': ('dict', 3, 'str', 'str'), 'required': False}]}
+    shared = S('s1')
+    yield [col, idt, kh], ('class', 'KH'), M([(S('label'), shared), (S('by_id'), M([(shared, S('1', 'int'))]))]), 'alias-key'
+    yield [col, idt, kh], ('class', 'KH'), M([(S('label'), S('x')), (S('by_id'), M([(shared, S('1', 'int'))])),
+                                             (S('by_name'), M([(shared, S('v'))]))]), 'alias-key'
+    yield [col, idt, kh], ('class', 'KH'), M([(S('label'), S('x')), (S('by_name'), M([(shared, S('v'))])),
+                                             (S('by_id'), M([(shared, S('1', 'int'))]))]), 'alias-key'
     # a collection shared between an Any position and a typed one, and the same mapping many times
     k = {'name': 'K', 'kind': 'obj', 'bases': [], 'extra': False, 'registered': True,
          'params': [{'name': 'a', 'type': 'any', 'required': True}, {'name': 'b', 'type': ('list', 0, 'int'), 'required': True},
